@@ -3,7 +3,7 @@
 import os, sys
 sys.path.insert(0, os.path.dirname(os.path.abspath(__file__)))
 import vlib, scen, lcheck
-import c03
+import c03, c14
 
 PID = "C04"
 
@@ -23,6 +23,10 @@ def family(seed, tier):
     # all eras: FCT burns (and every factoid transaction shape that is not a burn), rewards of every grader version, the PEG bank
     lg = scen.legacy_chain(seed + 3, name="c04-legacy", tip=28)
     docs.append((lg.s["name"], lg.doc()))
+    # staking and developer payouts in the same block (cadence heights 144 / 288)
+    st = c14.chain(seed + 2, 0, "quick")
+    st.s["name"] = "c04-payouts"
+    docs.append((st.s["name"], st.doc()))
     r = scen.rich_chain(seed, name="c04-rich", long=(tier != "quick"))
     docs.append((r.s["name"], r.doc()))
     return docs
